@@ -199,7 +199,8 @@ pub fn install_panic_recorder() {
         }
         // a panic on the main thread that nothing catches ends the worker with
         // status 101: say what it was, so that a worker death is never anonymous
-        if !loud && th == "main" && !payload.contains("injected executor panic") {
+        // (non-string payloads are the engine's own cycle unwinding, which it catches)
+        if !loud && th == "main" && !payload.contains("injected executor panic") && payload != "<non-string payload>" {
             let before: Vec<String> = PANICS.lock().map(|p| p.iter().rev().take(3).cloned().collect()).unwrap_or_default();
             eprintln!("PANIC-ON-MAIN {msg} ;; panics recorded before it (latest first): {before:?}");
         }
